@@ -98,7 +98,8 @@ def gen_elem(rng, depth, w, recs, parent, xml, max_depth=4, max_children=3):
         attrs = [{'name': 'type', 'ns': ns, 'ne': ne, 'val': val, 'vs': vs, 've': ve,
                   'inner': (vs + 1, ve - 1) if val[0] in '"\'' else (vs, ve)}]
     elif kind == 'special':
-        attrs = []
+        attrs = gen_attrs(rng, w) if rng.random() < 0.5 else []
+        attrs = [a for a in attrs]
     else:
         attrs = gen_attrs(rng, w)
     w.add(rng.choice(['', '', ' ', '\n']))
@@ -188,3 +189,32 @@ def class_tokens(src, a):
             toks.append((i, j))
         i = j
     return toks
+
+
+def to_json(recs):
+    "compact, JSON-able ground truth (parents by index) so that a violation can be replayed"
+    idx = {id(r): i for i, r in enumerate(recs)}
+    out = []
+    for r in recs:
+        out.append({'name': r['name'], 'kind': r['kind'], 'open': list(r['open']), 'close': list(r['close']) if r['close'] else None,
+                    'attrs': [dict(a, inner=list(a['inner']) if a['inner'] else None) for a in r['attrs']],
+                    'parent': idx[id(r['parent'])] if r['parent'] is not None else None, 'selfclosed': r['selfclosed'], 'depth': r['depth']})
+    return out
+
+
+def from_json(lst):
+    recs = []
+    for d in lst:
+        r = dict(d)
+        r['open'] = tuple(d['open'])
+        r['close'] = tuple(d['close']) if d['close'] else None
+        r['attrs'] = [dict(a, inner=tuple(a['inner']) if a['inner'] else None) for a in d['attrs']]
+        r['children'] = []
+        recs.append(r)
+    for r in recs:
+        r['parent'] = recs[r['parent']] if r['parent'] is not None else None
+        if r['parent'] is not None:
+            r['parent']['children'].append(r)
+        r['start'] = r['open'][0]
+        r['end'] = (r['close'] or r['open'])[1]
+    return recs
